@@ -1045,13 +1045,31 @@ impl<'a, const N: usize> Props for __PrivateMacroProps<'a, N> {
     fn get<'v, K: ToStr>(&'v self, key: K) -> Option<Value<'v>> {
         let key = key.to_str();
 
-        self.0
-            .binary_search_by(|(k, _)| k.cmp(&key))
-            .ok()
-            .and_then(|i| self.0[i].1.as_ref().map(|v| v.by_ref()))
+        // The macros sort properties by their identifier, but `#[emit::key]` may have
+        // renamed any of them, so the array can't be assumed sorted by key
+        for kv in &self.0 {
+            if kv.0 == key {
+                if let Some(ref v) = kv.1 {
+                    return Some(v.by_ref());
+                }
+            }
+        }
+
+        None
     }
 
     fn is_unique(&self) -> bool {
+        // The macros reject duplicated identifiers, but `#[emit::key]` may have renamed
+        // one property to the key of another; keys in strictly ascending order are unique
+        let mut i = 1;
+        while i < N {
+            if self.0[i - 1].0 >= self.0[i].0 {
+                return false;
+            }
+
+            i += 1;
+        }
+
         true
     }
 }
